@@ -61,6 +61,18 @@ pub fn run_case(case: &Value, keys: &Keys) -> Value {
             let before = TICKED.with(|t| t.get());
             let mut o = if c.as_str() == Some("authorize") {
                 authz_outcome_j(&az.authorize())
+            } else if c.as_str() == Some("restore") {
+                // the authorizer is replaced by what its snapshot restores: budgets spent so far must stay spent
+                match az.to_raw_snapshot() {
+                    Err(e) => json!({"r": "snapshot-error", "kind": format!("{:?}", e)}),
+                    Ok(bytes) => match biscuit_auth::Authorizer::from_raw_snapshot(&bytes) {
+                        Ok(a) => {
+                            az = a;
+                            json!({"r": "restored"})
+                        }
+                        Err(e) => json!({"r": "restore-error", "kind": format!("{:?}", e)}),
+                    },
+                }
             } else {
                 let q = &c["query"];
                 let rule: Rule = rule_b(&q["q"], &pool, keys);
@@ -103,7 +115,9 @@ fn gen_calls(rng: &mut rand::rngs::StdRng, keys: &Keys, pool: &mut Pool) -> Vec<
     let n = rng.gen_range(1..5);
     (0..n)
         .map(|_| {
-            if rng.gen_range(0..2) == 0 {
+            if rng.gen_range(0..5) == 0 {
+                json!("restore")
+            } else if rng.gen_range(0..2) == 0 {
                 json!("authorize")
             } else {
                 let qs = gen_queries_j(rng, keys, pool);
